@@ -924,6 +924,33 @@ func checkLenValidator(c *Ctx, r *Run, rel, typ, method string) {
 			}
 			return
 		}
+		// the scan moved into a predicate of its own: `if x.isZero() { return error }`
+		if pc := condCall(iff.Cond); pc != nil {
+			if g := localHelperOf(pc); g != nil && len(g.Params) == 1 && len(pc.Call.Args) == 1 && isVal(pc.Call.Args[0]) {
+				if rt, isB := g.Signature.Results().At(0).Type().Underlying().(*types.Basic); isB && rt.Kind() == types.Bool && g.Signature.Results().Len() == 1 {
+					scans := false
+					allInstrs(g, func(in2 ssa.Instruction) {
+						if b2, isBO := in2.(*ssa.BinOp); isBO && (b2.Op == token.EQL || b2.Op == token.NEQ) {
+							if k, isK := constInt(b2.Y); isK && k == 0 && dependsOn(b2.X, func(v ssa.Value) bool { return v == ssa.Value(g.Params[0]) }) {
+								scans = true
+							}
+						}
+					})
+					// one of the two edges leaves with an error straight away
+					rejects := false
+					for _, sc := range iff.Block().Succs {
+						for _, x := range sc.Instrs {
+							if ret, isR := x.(*ssa.Return); isR && len(ret.Results) == 1 && !isNilConst(ret.Results[0]) {
+								rejects = true
+							}
+						}
+					}
+					if scans && rejects {
+						okZero = true
+					}
+				}
+			}
+		}
 		bo, ok := iff.Cond.(*ssa.BinOp)
 		if !ok {
 			return
